@@ -101,7 +101,19 @@ Init == pick \in {p \in Picks : ValidPick(p)}
 Next == UNCHANGED pick
 Spec == Init /\ [][Next]_vars
 
-EmitTables == PrintT(<<"VEDGE", ToJson([tables |-> Tables, grammars |-> Grammars])>>)
+\* ---- semantics of the string part "cstr1" on every payload of up to 4 bytes over three byte
+\*      classes (NUL, printable, high): accepted iff the last byte is the terminator; the value is
+\*      everything before that final terminator, embedded NULs included (so that accepted bytes
+\*      re-encode to themselves and every value survives encode/decode) ----
+ByteCls == {0, 65, 255}
+Payloads == UNION {[1 .. n -> ByteCls] : n \in 0 .. 4}
+CStrAccepts(p) == Len(p) >= 1 /\ p[Len(p)] = 0
+CStrValue(p) == SubSeq(p, 1, Len(p) - 1)
+PartRows == {[part |-> "cstr1", payload |-> p, accept |-> CStrAccepts(p),
+              value |-> IF CStrAccepts(p) THEN CStrValue(p) ELSE <<>>] : p \in Payloads}
+ASSUME \A r \in PartRows : r.accept => Len(r.value) + 1 = Len(r.payload)
+
+EmitTables == PrintT(<<"VEDGE", ToJson([tables |-> Tables, grammars |-> Grammars, parts |-> PartRows])>>)
 ASSUME EmitTables
 Emit == PrintT(<<"VCASE", ToJson([s |-> pick.s, field |-> Tables[pick.s].fields[pick.f].name, cls |-> pick.c])>>)
 =============================================================================
